@@ -51,8 +51,25 @@ class Sub:
         self.shrink_budget = shrink_budget or {"quick": 25.0, "thorough": 120.0}
 
 
+class _deep:
+    """Cases may nest deeper than the interpreter's default recursion limit allows json to follow; the limit is
+    raised only around (de)serialisation so that the code under test still runs under the default."""
+
+    def __enter__(self):
+        self.old = sys.getrecursionlimit()
+        sys.setrecursionlimit(max(self.old, 20000))
+
+    def __exit__(self, *exc):
+        sys.setrecursionlimit(self.old)
+
+
+def dumps(obj, **kw) -> str:
+    with _deep():
+        return json.dumps(obj, **kw)
+
+
 def digest(case) -> str:
-    return hashlib.sha1(json.dumps(case, sort_keys=True, default=str).encode()).hexdigest()
+    return hashlib.sha1(dumps(case, sort_keys=True, default=str).encode()).hexdigest()
 
 
 def kind_slug(kind: str) -> str:
@@ -154,7 +171,7 @@ class _ShardState:
             if matched is not None:
                 self.known[matched["id"]] += 1
                 continue
-            size = len(json.dumps(case, default=str))
+            size = len(dumps(case, default=str))
             cur = self.failures.get(kind)
             if cur is None or size < cur["size"]:
                 self.failures[kind] = {"case": case, "detail": detail, "size": size,
@@ -284,7 +301,7 @@ def run_property(pid: str, tier: str, seed: int, only_sub=None) -> int:
             known.update(r["known"])
             for f in r["failures"]:
                 cur = fails.get(f["kind"])
-                size = len(json.dumps(f["case"], default=str))
+                size = len(dumps(f["case"], default=str))
                 if cur is None or size < cur["size"]:
                     fails[f["kind"]] = {**f, "size": size, "count": f["count"] + (cur["count"] if cur else 0)}
                 else:
@@ -308,7 +325,7 @@ def run_property(pid: str, tier: str, seed: int, only_sub=None) -> int:
             h = digest(payload["case"])[:10]
             path = os.path.join("replays", "new", f"{pid}-{kind_slug(kind)}-{h}.json")
             with open(os.path.join(VERIF, path), "w", encoding="utf-8") as fh:
-                json.dump(payload, fh, indent=1, ensure_ascii=True, default=str)
+                fh.write(dumps(payload, indent=1, ensure_ascii=True, default=str))
             violations.append((kind, path))
 
     # 4. generator health
@@ -365,7 +382,7 @@ def run_property(pid: str, tier: str, seed: int, only_sub=None) -> int:
     }
     os.makedirs(os.path.join(VERIF, "evidence"), exist_ok=True)
     with open(os.path.join(VERIF, "evidence", f"{pid}.json"), "w", encoding="utf-8") as fh:
-        json.dump(evidence, fh, indent=1, ensure_ascii=True, default=str)
+        fh.write(dumps(evidence, indent=1, ensure_ascii=True, default=str))
 
     for line in known_lines:
         print(line)
@@ -390,7 +407,7 @@ def run_property(pid: str, tier: str, seed: int, only_sub=None) -> int:
 
 
 def _shorten(case, limit=1500):
-    s = json.dumps(case, default=str, ensure_ascii=True)
+    s = dumps(case, default=str, ensure_ascii=True)
     if len(s) <= limit:
         return case
     return {"truncated_json": s[:limit] + "...", "full_length": len(s)}
